@@ -266,11 +266,44 @@ Proof.
   rewrite E1. f_equal; unfold abs, set_item; cbn [as_list last_key s_map s_last]; rewrite ms_replace_set; reflexivity.
 Qed.
 
+(* ---------- popitem / clear / values ---------- *)
+Lemma d_del_absent {V} : forall k (d : list (text * V)), ~ In k (map fst d) -> d_del k d = d.
+Proof.
+  intros k d. induction d as [|[k1 v1] d IH]; simpl; intro H; [reflexivity|].
+  destruct (text_eqb k k1) eqn:E; [apply text_eqb_eq in E; exfalso; apply H; auto|]. rewrite IH; auto.
+Qed.
+Lemma pop_first_spec : forall h k vs al, inv h -> as_list h = (k, vs) :: al ->
+  exists h', pop_first h = (RPairs [(k, join [c_comma] vs)], h') /\
+             as_list h' = al /\ last_key h' = last_key h /\ inv h'.
+Proof.
+  intros h k vs al Hi Ea. pose proof Hi as [_ [Hn Hf]]. rewrite Ea in Hn, Hf.
+  inversion Hn as [|? ? Hk Hn']; subst. inversion Hf as [|? ? [Hnk _] _]; subst. simpl in Hnk.
+  assert (Hg : d_get (normalize k) (as_list h) = Some vs).
+  { rewrite Hnk, Ea. simpl. rewrite text_eqb_refl. reflexivity. }
+  destruct (get_item_hit k h vs Hi Hg) as [h1 [E1 [E2 [E3 E4]]]].
+  unfold pop_first, keys. rewrite Ea. cbn [map fst]. rewrite E1.
+  unfold del_item, d_mem. rewrite E2, Hg. eexists. split; [reflexivity|]. cbn [as_list last_key].
+  split; [|split; [exact E3|rewrite <- E2; apply inv_delete; exact E4]].
+  rewrite Hnk, Ea. simpl. rewrite text_eqb_refl. apply d_del_absent. exact Hk.
+Qed.
+Lemma clear_loop_spec : forall fuel h, inv h -> (length (as_list h) <= fuel)%nat ->
+  exists h', clear_loop fuel h = (RUnit, h') /\ as_list h' = [] /\ last_key h' = last_key h /\ inv h'.
+Proof.
+  induction fuel as [|f IH]; intros h Hi Hl.
+  - destruct (as_list h) eqn:Ea; [|simpl in Hl; lia]. exists h. simpl. rewrite Ea. auto.
+  - destruct (as_list h) as [|[k vs] al] eqn:Ea.
+    + exists h. cbn [clear_loop]. unfold pop_first, keys. rewrite Ea. simpl. auto.
+    + destruct (pop_first_spec h k vs al Hi Ea) as [h1 [E1 [E2 [E3 E4]]]].
+      cbn [clear_loop]. rewrite E1.
+      destruct (IH h1 E4) as [h2 [F1 [F2 [F3 F4]]]]; [rewrite E2; simpl in Hl; lia|].
+      exists h2. rewrite F1. repeat split; try congruence; apply F4.
+Qed.
+
 (* ---------- every single-object operation ---------- *)
 Theorem step_refines : forall o h, inv h ->
   s_step o (abs h) = (fst (step o h), abs (snd (step o h))) /\ inv (snd (step o h)).
 Proof.
-  intros o h Hi. destruct o as [n v|n v|n|n|n|n| | |l| |n|n|n v| | |l]; simpl step; simpl s_step.
+  intros o h Hi. destruct o as [n v|n v|n|n|n|n| | |l| |n|n|n v| | |l| | | ]; simpl step; simpl s_step.
   - apply add_refines. exact Hi.
   - simpl. rewrite ms_replace_set. split; [reflexivity|]. apply inv_set; [exact Hi|apply normalize_idem].
   - unfold del_item. simpl s_map. rewrite ms_mem_mem, ms_remove_del.
@@ -311,4 +344,14 @@ Proof.
     rewrite E2. split; [reflexivity|exact E3].
   - simpl. split; [reflexivity|exact Hi].
   - (* Update *) simpl. destruct (update_all_refines l h Hi) as [E1 E2]. rewrite E1. split; [reflexivity|exact E2].
+  - (* PopItem *) change (s_map (abs h)) with (as_list h). change (s_last (abs h)) with (last_key h).
+    destruct (as_list h) as [|[k vs] al] eqn:Ea.
+    + unfold pop_first, keys. rewrite Ea. simpl. split; [reflexivity|exact Hi].
+    + destruct (pop_first_spec h k vs al Hi Ea) as [h1 [E1 [E2 [E3 E4]]]]. rewrite E1. simpl.
+      split; [unfold abs; rewrite E2, E3; reflexivity|exact E4].
+  - (* Clear *) change (s_last (abs h)) with (last_key h). unfold clear.
+    destruct (clear_loop_spec (length (as_list h)) h Hi (le_n _)) as [h1 [E1 [E2 [E3 E4]]]]. rewrite E1. simpl.
+    split; [unfold abs; rewrite E2, E3; reflexivity|exact E4].
+  - (* Values *) unfold values. destruct (items_refines h Hi) as [h' [E1 [E2 E3]]]. rewrite E1. simpl.
+    rewrite E2. split; [reflexivity|exact E3].
 Qed.
